@@ -30,6 +30,13 @@ func DecodeStorable(dec *cbor.StreamDecoder, id atree.SlabID, inlinedExtraData [
 		}
 		return tu.NewStringValue(s), nil
 
+	case cbor.ByteStringType:
+		b, err := dec.DecodeBytes()
+		if err != nil {
+			return nil, err
+		}
+		return BytesValue(b), nil
+
 	case cbor.TagType:
 		tagNumber, err := dec.DecodeTagNumber()
 		if err != nil {
@@ -184,6 +191,9 @@ type U8 struct{ N uint8 }      // testutils.Uint8Value(N)
 func (U8) mv() {}
 type Str struct{ S string }    // testutils.StringValue
 type Some struct{ In MV }      // testutils.SomeValue
+type Bytes struct{ B string }  // harness byte-string key (arbitrary bytes; CBOR byte string)
+
+func (Bytes) mv() {}
 
 func (Scalar) mv() {}
 func (Str) mv()    {}
@@ -258,6 +268,8 @@ func MVString(v MV) string {
 			return fmt.Sprintf("%q…(%d)", v.S[:8], len(v.S))
 		}
 		return fmt.Sprintf("%q", v.S)
+	case Bytes:
+		return fmt.Sprintf("bytes(%x)", v.B)
 	case Some:
 		return "some(" + MVString(v.In) + ")"
 	case *Cont:
@@ -328,6 +340,8 @@ func ToAtree(v MV) atree.Value {
 		return tu.Uint8Value(v.N)
 	case Str:
 		return tu.NewStringValue(v.S)
+	case Bytes:
+		return BytesValue(v.B)
 	case Some:
 		return tu.NewSomeValue(ToAtree(v.In))
 	case *Cont:
@@ -420,6 +434,8 @@ func ClassOf(v MV) string {
 		return fmt.Sprintf("b%d", ScalarSize(uint64(v.N)))
 	case Str:
 		return fmt.Sprintf("s%d", StrSize(v.S))
+	case Bytes:
+		return fmt.Sprintf("y%d", StrSize(v.B))
 	case Some:
 		return "S(" + ClassOf(v.In) + ")"
 	case *Cont:
@@ -438,4 +454,69 @@ func tiText(t atree.TypeInfo) string {
 
 func thresholds() (target, minT, maxT, maxArr, maxMapElem, maxKey uint32) {
 	return atree.VerifThresholds()
+}
+
+// BytesValue is a harness value/storable holding arbitrary bytes (CBOR byte string).  It exists so
+// that keys can be built whose hash input collides on the FIRST digest level under the default
+// digester (see KeyOfDefault 300..399).
+type BytesValue string
+
+var _ atree.Value = BytesValue("")
+var _ atree.Storable = BytesValue("")
+
+func (v BytesValue) ByteSize() uint32 {
+	return atree.GetUintCBORSize(uint64(len(v))) + uint32(len(v))
+}
+func (v BytesValue) Encode(enc *atree.Encoder) error { return enc.CBOR.EncodeBytes([]byte(v)) }
+func (v BytesValue) StoredValue(atree.SlabStorage) (atree.Value, error) { return v, nil }
+func (v BytesValue) ChildStorables() []atree.Storable                    { return nil }
+func (v BytesValue) CanCopyNonRefSimple() bool                           { return true }
+func (v BytesValue) CopyNonRefSimple() (atree.Storable, error)           { return v, nil }
+func (v BytesValue) Storable(storage atree.SlabStorage, address atree.Address, maxInlineSize uint32) (atree.Storable, error) {
+	if v.ByteSize() > maxInlineSize {
+		return atree.NewStorableSlab(storage, address, v, v.ByteSize())
+	}
+	return v, nil
+}
+
+// HashInput: the CBOR encoding (2-byte head for lengths 24..255, then the bytes).
+func (v BytesValue) HashInput(scratch []byte) ([]byte, error) {
+	n := len(v)
+	var head []byte
+	switch {
+	case n <= 23:
+		head = []byte{0x40 | byte(n)}
+	case n <= 255:
+		head = []byte{0x58, byte(n)}
+	default:
+		head = []byte{0x59, byte(n >> 8), byte(n)}
+	}
+	return append(head, v...), nil
+}
+
+// CompareValue / GetHashInput: the comparator and hash-input provider the harness hands to atree
+// (test_utils' plus the harness byte-string value).
+func CompareValue(storage atree.SlabStorage, value atree.Value, storable atree.Storable) (bool, error) {
+	if bv, ok := value.(BytesValue); ok {
+		if other, ok := storable.(BytesValue); ok {
+			return other == bv, nil
+		}
+		ov, err := storable.StoredValue(storage)
+		if err != nil {
+			return false, err
+		}
+		other, ok := ov.(BytesValue)
+		return ok && other == bv, nil
+	}
+	if _, ok := storable.(BytesValue); ok {
+		return false, nil
+	}
+	return tu.CompareValue(storage, value, storable)
+}
+
+func GetHashInput(value atree.Value, buffer []byte) ([]byte, error) {
+	if bv, ok := value.(BytesValue); ok {
+		return bv.HashInput(buffer)
+	}
+	return tu.GetHashInput(value, buffer)
 }
